@@ -64,7 +64,7 @@ def main():
         i = args.index('--jobs'); jobs = int(args[i + 1]); del args[i:i + 2]
     if '--update-meta' in args:
         update = True; args.remove('--update-meta')
-    seeds = args or sorted(os.listdir(os.path.join(ROOT, 'seeded')))
+    seeds = args or sorted(x for x in os.listdir(os.path.join(ROOT, 'seeded')) if os.path.isdir(os.path.join(ROOT, 'seeded', x)))
     man = json.load(open(os.path.join(ROOT, 'MANIFEST.json')))
     os.makedirs(SCR, exist_ok=True)
     with cf.ThreadPoolExecutor(max_workers=jobs) as ex:
